@@ -219,3 +219,25 @@ func BridgeCallCheckpoint(chain, gravityID string, b *cctypes.OutgoingBridgeCall
 }
 
 func fmtErr(f string, a ...interface{}) error { return fmt.Errorf(f, a...) }
+
+// *CheckpointE variants return the error instead of panicking (C12 feeds boundary values).
+func OracleSetCheckpointE(chain, gravityID string, os *cctypes.OracleSet) ([]byte, error) {
+	if chain == trontypes.ModuleName {
+		return trontypes.GetCheckpointOracleSet(os, gravityID)
+	}
+	return os.GetCheckpoint(gravityID)
+}
+
+func BatchCheckpointE(chain, gravityID string, b *cctypes.OutgoingTxBatch) ([]byte, error) {
+	if chain == trontypes.ModuleName {
+		return trontypes.GetCheckpointConfirmBatch(b, gravityID)
+	}
+	return b.GetCheckpoint(gravityID)
+}
+
+func BridgeCallCheckpointE(chain, gravityID string, b *cctypes.OutgoingBridgeCall) ([]byte, error) {
+	if chain == trontypes.ModuleName {
+		return trontypes.GetCheckpointBridgeCall(b, gravityID)
+	}
+	return b.GetCheckpoint(gravityID)
+}
